@@ -52,6 +52,14 @@ def observe(case):
         o["outcome"] = "error"
         cur = getattr(error, "cursor", None)
         o["positioned"] = bool(isinstance(getattr(error, "message", None), str) and isinstance(cur, retree.Cursor) and 0 <= cur.major_cursor <= len(cur.values))
+        if o["positioned"]:
+            # the position must be presentable: render_pointer is how every caller turns the cursor into a position
+            try:
+                regex_line, pointer_line = retree.render_pointer(cur)
+                o["positioned"] = isinstance(regex_line, str) and isinstance(pointer_line, str) and pointer_line.endswith("^")
+            except Exception as ex:
+                o["positioned"] = False
+                o["exc"] = rc.observe_exception(ex)
         return o
     o["outcome"] = "parsed"
     o["parsed"] = rc.project(regex)
